@@ -90,10 +90,31 @@ class C03(core.Check):
 
     # ---------- implementation ----------
     def run_impl(self, case):
+        import signal
         import urwid
         from urwid import text_layout
         enc = case["enc"]
         res = {}
+
+        class Hang(BaseException):
+            pass
+
+        def on_alarm(signum, frame):
+            raise Hang()
+        old_handler = signal.signal(signal.SIGALRM, on_alarm)
+        signal.setitimer(signal.ITIMER_REAL, 3.0)       # a layout loop that does not terminate must not block the check
+        try:
+            return self._run_impl(case, urwid, text_layout, enc, res)
+        except Hang:
+            for k in ("layout", "rows", "pack", "pack0", "render"):
+                res.setdefault(k, "Err:DoesNotTerminate")
+            return res
+        finally:
+            signal.setitimer(signal.ITIMER_REAL, 0)
+            signal.signal(signal.SIGALRM, old_handler)
+            urwid.set_encoding("utf-8")
+
+    def _run_impl(self, case, urwid, text_layout, enc, res):
         try:
             urwid.set_encoding(enc)
             raw = case["text"] if case["mode"] == "str" else case["text"].encode(enc)
@@ -120,6 +141,10 @@ class C03(core.Check):
                 res["layout"] = "Err:" + type(e).__name__
             t = urwid.Text(raw, align=align, wrap=wrap)
             try:
+                t.rows((w + 1,))           # fill the layout cache for another width first
+            except Exception:            # noqa: BLE001
+                pass
+            try:
                 res["rows"] = t.rows((w,))
             except Exception as e:       # noqa: BLE001
                 res["rows"] = "Err:" + type(e).__name__
@@ -132,7 +157,7 @@ class C03(core.Check):
             except Exception as e:       # noqa: BLE001
                 res["pack0"] = "Err:" + type(e).__name__
             try:
-                canv = urwid.Text(raw, align=align, wrap=wrap).render((w,))
+                canv = t.render((w,))      # the same widget: rows(), pack() and render() share the cached layout
                 res["render"] = [[ord(c) for c in row.decode(enc, "surrogateescape")] for row in canv.text]
             except Exception as e:       # noqa: BLE001
                 res["render"] = "Err:" + type(e).__name__
